@@ -23,6 +23,7 @@ EXPLANATION = (
     "_infer_type_from_return_stmts, _create_inferred_results and to_dict; (module_order) whole generation incl. file "
     "creation for 2-3 modules analysed in both orders, with fully qualified and bare references, re-export on/off, both "
     "naming settings: every path and text equal."
+    ' (nearest_packages) _get_nearest_init_dirs over every set of up to four package directories (depths 1-3) and every enumeration order of root.glob: the result is the set of the shallowest ones.'
 )
 ASSUMPTIONS = [
     "working directory, path spelling (relative/absolute/trailing slash) and repeated process runs are Path.resolve, "
